@@ -4,6 +4,7 @@ import (
 	"go/token"
 	"go/types"
 	"sort"
+	"strconv"
 	"strings"
 
 	"golang.org/x/tools/go/ssa"
@@ -441,4 +442,14 @@ func appendedValues(call *ssa.Call) []ssa.Value {
 		}
 	}
 	return out
+}
+
+// seqKey numbers the obligations of one rule instance within one construct ( name@function#1, #2, … in instruction order ), so that the
+// key of an obligation does not move with the lines above it.
+func seqKey(c *core.Ctx, base string) string {
+	if c.Seq == nil {
+		c.Seq = map[string]int{}
+	}
+	c.Seq[base]++
+	return base + "#" + strconv.Itoa(c.Seq[base])
 }
